@@ -261,6 +261,20 @@ func (c *Canon) s(v ssa.Value) string {
 	case *ssa.Field:
 		return c.S(x.X) + "." + fieldName(x.X.Type(), x.Field)
 	case *ssa.IndexAddr:
+		// element i of the prefix x[:h] is element i of x
+		if sl, ok := x.X.(*ssa.Slice); ok && sl.Low == nil {
+			if _, isSlice := sl.X.Type().Underlying().(*types.Slice); isSlice {
+				if mk, ok := sl.X.(*ssa.MakeSlice); ok && !c.busy[mk] {
+					c.busy[mk] = true
+					src, field, isProj := c.sliceProjection(mk)
+					delete(c.busy, mk)
+					if isProj {
+						return c.S(src) + "[" + c.idxOf(src, x.Index) + "]." + field
+					}
+				}
+				return c.S(sl.X) + "[" + c.idxOf(sl.X, x.Index) + "]"
+			}
+		}
 		// O[i] of a projection O[j] = S[j].f (for all j) is S[i].f
 		if mk, ok := x.X.(*ssa.MakeSlice); ok && !c.busy[mk] {
 			c.busy[mk] = true
@@ -538,7 +552,12 @@ func (c *Canon) sliceProjection(mk *ssa.MakeSlice) (ssa.Value, string, bool) {
 			if b, ok := x.Call.Value.(*ssa.Builtin); !ok || (b.Name() != "len" && b.Name() != "cap") {
 				return nil, "", false
 			}
-		case *ssa.Slice, *ssa.Store, *ssa.MakeClosure:
+		case *ssa.Slice:
+			// a prefix O[:h] that is only read (ranged over, indexed for loading, measured) leaves the contents alone
+			if x.X != ssa.Value(mk) || !readOnlyView(x) {
+				return nil, "", false
+			}
+		case *ssa.Store, *ssa.MakeClosure:
 			return nil, "", false
 		}
 	}
@@ -595,4 +614,51 @@ func (c *Canon) sliceProjection(mk *ssa.MakeSlice) (ssa.Value, string, bool) {
 		return nil, "", false
 	}
 	return src, field, true
+}
+
+// isAllIndex: v indexes every element of a container exactly once in ascending order: the index of a range statement,
+// or the counter of `for i := 0; i < len(X); i++` (no other definition of i).
+func isAllIndex(v ssa.Value) bool {
+	if isRangeIndex(v) {
+		return true
+	}
+	ph, ok := v.(*ssa.Phi)
+	if !ok {
+		return false
+	}
+	b := countedLoopBound(ph)
+	if b == nil {
+		return false
+	}
+	call, ok := b.(*ssa.Call)
+	if !ok {
+		return false
+	}
+	bi, ok := call.Call.Value.(*ssa.Builtin)
+	return ok && bi.Name() == "len"
+}
+
+// readOnlyView: every use of the slice value is a load of an element, len / cap, or a debug reference.
+func readOnlyView(sl *ssa.Slice) bool {
+	if sl.Referrers() == nil {
+		return true
+	}
+	for _, ref := range *sl.Referrers() {
+		switch x := ref.(type) {
+		case *ssa.IndexAddr:
+			for _, rr := range *x.Referrers() {
+				if u, ok := rr.(*ssa.UnOp); !ok || u.Op != token.MUL {
+					return false
+				}
+			}
+		case *ssa.Call:
+			if b, ok := x.Call.Value.(*ssa.Builtin); !ok || (b.Name() != "len" && b.Name() != "cap") {
+				return false
+			}
+		case *ssa.DebugRef:
+		default:
+			return false
+		}
+	}
+	return true
 }
